@@ -257,6 +257,25 @@ def main():
                 out["refutations"].append(rec)
                 if failed:
                     break
+        # ---- 4. thorough tier: probe of the proof itself - the same contract on concrete shapes (quantifier-free instances);
+        # a solver model there that fails natively would be a violation the unbounded proof missed (engine unsoundness)
+        if tier == "thorough" and not unproved and proof_error is None and C.refute and C.native_ok and not out["refutations"]:
+            found, tried = refute_by_shapes(C, case, reg, contracts, lib, deadline=time.time() + 45, max_models=3)
+            out["cover"]["thorough_shape_probe"] = {"shapes": tried, "models": len(found)}
+            for f in found:
+                nargs = f["args"]
+                try:
+                    if not N.pre_holds_native(C, nargs):
+                        continue
+                    o, v, post = N.run_native(C, nargs)
+                    failed = N.eval_contract_native(C, nargs, o, v, post)
+                except Exception:
+                    continue          # a candidate that cannot even be evaluated natively is not a counterexample
+                if failed:
+                    out["refutations"].append({"how": "thorough-shape-probe", "obligation": f["obligation"], "args": N.encode(nargs),
+                                               "failed": failed, "outcome": o if o == "return" else "raise " + str(v),
+                                               "confirmed_native": True})
+                    break
     except CheckerError as e:
         out["error"] = "CHECKER-ERROR %s" % e
     except Exception as e:
